@@ -5,10 +5,11 @@ rows = []
 for p in sorted(glob.glob("/verif/seeded/*/meta.json")):
     m = json.load(open(p))
     sig = (m.get("signatures") or ["-"])
-    rows.append("| %s | %s | %s | %s | %s |" % (os.path.basename(os.path.dirname(p)), m.get("summary", ""), m.get("needs_to_manifest", ""),
-                "yes" if m.get("caught_by_our_check") else "**no**", "<br>".join(s[:110] for s in sig[:2])))
+    cl = lambda t: " ".join(str(t).split()).replace("|", "\\|")
+    rows.append("| %s | %s | %s | %s | %s |" % (os.path.basename(os.path.dirname(p)), cl(m.get("summary", "")), cl(m.get("needs_to_manifest", "")),
+                "yes" if m.get("caught_by_our_check") else "**no**", "<br>".join("`" + cl(s[:110]) + "`" for s in sig[:2])))
 tbl = ("\n\n| seed | change | needs to manifest | caught | by (signature) |\n|---|---|---|---|---|\n" + "\n".join(rows) + "\n") if rows else " (none kept yet)\n"
 d = open("/verif/DESIGN.md").read()
-d = re.sub(r"SEEDED-TABLE.*?(?=\n## 10\.)", "SEEDED-TABLE" + tbl, d, flags=re.S)
+d = re.sub(r"SEEDED-TABLE.*?(?=\n## 10\.)", lambda m: "SEEDED-TABLE" + tbl, d, flags=re.S)
 open("/verif/DESIGN.md", "w").write(d)
 print(len(rows), "rows")
